@@ -131,7 +131,7 @@ def _extract(cfg, repo, crate, out, afile=None):
     sys.stderr.write("[extract] %s facts in %.1fs -> %s\n" % (cfg, time.time() - t0, out))
 
 
-def _prune(keep=48):
+def _prune(keep=24):
     for cfg in CONFIGS:
         fs = sorted(glob.glob(os.path.join(CACHE, "facts", cfg + "-*.jsonl")), key=os.path.getmtime, reverse=True)
         for f in fs[keep:]:
